@@ -63,6 +63,7 @@ def run(repo, rep, tier):
     # the formats (template classes) of one file apart (C14 owns the key)
     from . import c14
     L.borrow(repo, rep, "R20.1", "C14", c14._publish, ("registry-key",))
+    L.option_defaults_rule(repo, rep, "R20.1", ("mode", "encoding"))
     L.state_rule(repo, rep)
 
 
